@@ -39,6 +39,8 @@ def gen_cases(tier, seed):
     n = 90 if tier == 'quick' else 1500
     cs = gen_cases_corpus(n, seed, opts={'max_stmts': 8, 'on_error': False})
     cs += [{'src': 'text', 'text': t, 'seed': i} for i, t in enumerate(SHAPES)]
+    from .common import shape_cases
+    cs += shape_cases(60 if tier == 'quick' else None, seed)
     return cs
 
 
